@@ -104,6 +104,55 @@ package align
 //@     invariant forall r :: seq <= r && r < nrows(sb) ==> rowname(sb, r) == old(rowname(sb, r))
 //@     decreases nrows(sb) - seq
 
+// the other in-place renamers: rows, order and residues untouched; the index is rebuilt; well-formed unless two rows now share a name
+//@ pure func samerows(sb *seqbag) bool = nrows(sb) == old(nrows(sb)) && (forall r :: 0 <= r && r < nrows(sb) ==> row(sb, r) == old(row(sb, r)) && sameslice(row(sb, r).sequence, old(row(sb, r).sequence)))
+
+//@ func (*seqbag).AppendSeqIdentifier
+//@   props C01
+//@   requires wf(sb)
+//@   ensures samerows(sb) && (uniq(sb) ==> wf(sb)) && sb.alphabet == old(sb.alphabet)
+//@   ensures forall r :: 0 <= r && r < nrows(sb) ==> rowname(sb, r) == (len(identifier) == 0 ? old(rowname(sb, r)) : (right ? old(rowname(sb, r)) + identifier : identifier + old(rowname(sb, r))))
+//@   modifies sb.seqmap, field(seq.name)
+//@   loop 1
+//@     modifies field(seq.name)
+//@     invariant sb != nil && rowsok(sb) && len(identifier) != 0
+//@     invariant forall r1, r2 :: 0 <= r1 && r1 < r2 && r2 < nrows(sb) ==> row(sb, r1) != row(sb, r2)
+//@     invariant forall r :: 0 <= r && r < $i ==> rowname(sb, r) == (right ? old(rowname(sb, r)) + identifier : identifier + old(rowname(sb, r)))
+//@     invariant forall r :: $i <= r && r < nrows(sb) ==> rowname(sb, r) == old(rowname(sb, r))
+//@     decreases nrows(sb) - $i
+
+//@ func (*seqbag).CleanNames
+//@   props C01
+//@   requires wf(sb)
+//@   ensures samerows(sb) && (uniq(sb) ==> wf(sb)) && sb.alphabet == old(sb.alphabet)
+//@   modifies sb.seqmap, field(seq.name), maps(map[string]string)
+//@   loop 1
+//@     modifies field(seq.name), maps(map[string]string)
+//@     invariant sb != nil && rowsok(sb)
+//@     decreases nrows(sb) - $i
+
+//@ func (*seqbag).RenameRegexp
+//@   props C01
+//@   requires wf(sb) && namemap != nil
+//@   ensures samerows(sb) && (result == nil && uniq(sb) ==> wf(sb)) && sb.alphabet == old(sb.alphabet)
+//@   ensures result != nil ==> forall r :: 0 <= r && r < nrows(sb) ==> rowname(sb, r) == old(rowname(sb, r))
+//@   modifies sb.seqmap, field(seq.name), maps(map[string]string)
+//@   loop 1
+//@     modifies field(seq.name), maps(map[string]string)
+//@     invariant sb != nil && rowsok(sb) && 0 <= seq && namemap != nil
+//@     decreases nrows(sb) - seq
+
+// ShuffleSequences: every step swaps two rows; the bag stays well-formed and the draw covers exactly the admissible positions
+//@ func (*seqbag).ShuffleSequences
+//@   props C01 C10
+//@   requires wf(sb)
+//@   ensures wf(sb) && nrows(sb) == old(nrows(sb)) && sb.alphabet == old(sb.alphabet)
+//@   assert_at math/rand.Intn 1 : arg0 == n && 2 <= n && n <= nrows(sb)
+//@   modifies sb.seqs[*]
+//@   loop 1
+//@     invariant wf(sb) && nrows(sb) == old(nrows(sb)) && sameslice(sb.seqs, old(sb.seqs)) && n <= nrows(sb)
+//@     decreases n
+
 // FilterLength: a row is kept iff its length is within both bounds (a negative bound is no bound)
 //@ pure func flkeep(sb *seqbag, min int, max int, r int) bool = (min < 0 || rowlen(sb, r) >= min) && (max < 0 || rowlen(sb, r) <= max)
 //@ pure func flrank(sb *seqbag, min int, max int, n int) int = (n <= 0 ? 0 : flrank(sb, min, max, n-1) + (flkeep(sb, min, max, n-1) ? 1 : 0))
